@@ -215,7 +215,13 @@ def doc_logpdf(c, sites):
         else:
             s1, s2 = (1 + n["rms_frac"]) * r, 5 * r
         return logsumexp([np.log(1 - cfrac) + stats.norm.logpdf(d, m, s1), np.log(cfrac) + stats.norm.logpdf(d, m, s2)], axis=0)
-    return None  # Student-t: structural
+    if loss == "student_t_loss":
+        # ν = 5 and scale √((ν−2)/2)·rms (pinned by Props.C07.repo_student_df / studentT_form); documented σ = rms
+        return stats.t.logpdf(d, 5.0, m, np.sqrt(1.5) * r)
+    if loss == "student_t_loss_free_sys":
+        # documented: σ_new² = σ_old² + σ_sys² — the same law as student_t_loss at the quadrature-summed rms
+        return stats.t.logpdf(d, 5.0, m, np.sqrt(1.5) * np.sqrt(r ** 2 + det("sys_rms") ** 2))
+    return None
 
 
 def oracle_case(c, real, tol_abs=1e-4, tol_rel=1e-5):
